@@ -14,3 +14,15 @@ Theorem C07_no_dot_never_forwarded : forall m a rid meth,
   split_first_dot m = None -> dispatch_method m <> DAction a rid meth.
 Proof. exact dispatch_nodot_not_forwarded. Qed.
 Print Assumptions C07_no_dot_never_forwarded.
+
+From RG Require Import Comp.SubFsm Proofs.SubFsmProofs.
+
+(* The subscription machine (model of the access/queueing/re-access/disposal logic of one Subscription, tied to the code by
+   the `subfsm` direct-drive correspondence): for every operation sequence whose request continuations carry distinct ids -
+   cached or fresh verdicts, re-access triggers, revocation, disposal, late answers - no continuation runs twice and only
+   registered continuations run. *)
+Theorem C07_continuation_at_most_once : forall ops,
+  NoDup (all_ids ops) ->
+  NoDup (obs_ids (concat (snd (run init ops)))) /\ incl (obs_ids (concat (snd (run init ops)))) (all_ids ops).
+Proof. exact continuation_at_most_once. Qed.
+Print Assumptions C07_continuation_at_most_once.
